@@ -251,6 +251,7 @@ func encoderOf(v ssa.Value, depth int) string {
 func runC20(c *core.Ctx, r *core.Reporter) {
 	c.BuildSSA()
 	c20settings(c, r)
+	c20mods(c, r)
 	const replace = "C20.replace"
 	const codec = "C20.codec"
 	const paths = "C20.paths"
